@@ -8,16 +8,23 @@ from . import core
 
 def run() -> int:
     mods = sorted(glob.glob(os.path.join(core.SPEC, "*.tla")))
-    bad = 0
-    for m in mods:
+    from concurrent.futures import ThreadPoolExecutor  # noqa: PLC0415
+
+    def sany(m):
         p = subprocess.run(
             ["java", "-cp", core.TLA_CP, "tla2sany.SANY", os.path.basename(m)],
             cwd=core.SPEC, capture_output=True, text=True,
         )
         out = p.stdout + p.stderr
-        if p.returncode != 0 or "*** Errors" in out or "Fatal errors" in out or "Could not parse" in out:
-            print(f"SANY failed on {m}:\n{out[-1500:]}")
-            bad += 1
+        ok = not (p.returncode != 0 or "*** Errors" in out or "Fatal errors" in out or "Could not parse" in out)
+        return m, ok, out
+
+    bad = 0
+    with ThreadPoolExecutor(max_workers=core.NCPU) as ex:
+        for m, ok, out in ex.map(sany, mods):
+            if not ok:
+                print(f"SANY failed on {m}:\n{out[-1500:]}")
+                bad += 1
     core.import_repo()
     os.makedirs(core.EVIDENCE, exist_ok=True)
     print(f"setup: {len(mods)} modules parsed, {bad} failures")
